@@ -17,6 +17,7 @@ n = 0
 for m in srcs:
     if srcs[m] != out[m]:
         open('/tmp/pushr_rewrites/src/push/%s.rs' % m, 'w').write(out[m]); n += 1
+open('/tmp/pushr_rewrites/src/lib.rs', 'a').write(gen.SELFTEST_SHIM)
 print('rewritten modules:', n, st)
 PY
 (cd $W && CARGO_TARGET_DIR=$W/target cargo test --offline 2>&1 | grep -q "291 passed") && r=0 || r=1
